@@ -83,6 +83,200 @@ theorem C05_case_insensitive (c : Bytes) (h : ∀ b ∈ c, (65 ≤ b ∧ b ≤ 9
     · have e1 : ¬ (65 ≤ b ∧ b ≤ 90) := by intro ⟨_, y⟩; exact absurd (UInt8.le_trans hb.1 y) (by decide)
       simp [e1]
 
+
+/-! ## Option grammars beyond SET -/
+
+def ExpFlag.ofKw (u : Bytes) : Option ExpFlag :=
+  if u = b!"NX" then some .nx else if u = b!"XX" then some .xx else if u = b!"GT" then some .gt
+  else if u = b!"LT" then some .lt else Option.none
+
+/-- **EXPIRE / EXPIREAT** `key ttl [NX|XX|GT|LT]`: any key bytes, any 64-bit integer token, the flag in any letter
+case, anything behind the flag ignored – one `Expire` call with exactly these values -/
+theorem C05_expire (pf : FloatOracle) (srv : SrvSt) (conn : ConnSt) (c k t : Bytes) (n : Int) (rel : Bool)
+    (flagToks : List Msg) (flag : ExpFlag)
+    (hh : srv.hasHandler = true) (ha : conn.authorized = true)
+    (hu : upper c = if rel then b!"EXPIRE" else b!"EXPIREAT") (hn : atoi t = some n)
+    (hf : (flagToks = [] ∧ flag = .none) ∨ (∃ f rest, flagToks = B f :: rest ∧ ExpFlag.ofKw (upper f) = some flag)) :
+    executeCommand pf srv conn c (B k :: B t :: flagToks) =
+      singleCall (upper c) (.expire k rel n flag) conn srv := by
+  have hflag : expireFlag b!"EXPIRE" flagToks = .ok flag := by
+    rcases hf with ⟨rfl, rfl⟩ | ⟨f, rest, rfl, hk⟩
+    · rfl
+    · simp only [expireFlag, B, msgStr]
+      unfold ExpFlag.ofKw at hk
+      by_cases h1 : upper f = b!"NX"
+      · simp [h1] at hk ⊢; exact hk
+      · by_cases h2 : upper f = b!"XX"
+        · simp [h1, h2] at hk ⊢; exact hk
+        · by_cases h3 : upper f = b!"GT"
+          · simp [h1, h2, h3] at hk ⊢; exact hk
+          · by_cases h4 : upper f = b!"LT"
+            · simp [h1, h2, h3, h4] at hk ⊢; exact hk
+            · simp [h1, h2, h3, h4] at hk
+  have hx : execExpire rel (B k :: B t :: flagToks) = callRet (.expire k rel n flag) := by
+    simp [execExpire, withArgs, nextInteger_B _ t n _ hn, hflag]
+  cases rel with
+  | true =>
+    simp only [if_true] at hu
+    exact dispatch_callRet pf srv conn c _ (execExpire true) _ hh ha (by rw [hu]; decide) (by rw [hu]; rfl) hx
+  | false =>
+    simp only [Bool.false_eq_true, if_false] at hu
+    exact dispatch_callRet pf srv conn c _ (execExpire false) _ hh ha (by rw [hu]; decide) (by rw [hu]; rfl) hx
+
+/-- **LPOP / RPOP** `key [count]`: without a count the handler gets 1, with one exactly the integer sent -/
+theorem C05_pop (pf : FloatOracle) (srv : SrvSt) (conn : ConnSt) (c k : Bytes) (left : Bool)
+    (countToks : List Msg) (n : Int)
+    (hh : srv.hasHandler = true) (ha : conn.authorized = true)
+    (hu : upper c = if left then b!"LPOP" else b!"RPOP")
+    (hc : (countToks = [] ∧ n = 1) ∨ (∃ t rest, countToks = B t :: rest ∧ atoi t = some n)) :
+    executeCommand pf srv conn c (B k :: countToks) =
+      singleCall (upper c) (if left then .lpop k n else .rpop k n) conn srv := by
+  have hx : ∀ mk : Bytes → Int → HCall, execPop mk (B k :: countToks) = callRet (mk k n) := by
+    intro mk
+    rcases hc with ⟨rfl, rfl⟩ | ⟨t, rest, rfl, ht⟩
+    · simp [execPop, withArgs]
+    · simp only [execPop, withArgs, nextString_B]
+      simp [B, msgInt, ht]
+  cases left with
+  | true =>
+    simp only [if_true] at hu ⊢
+    exact dispatch_callRet pf srv conn c _ (execPop .lpop) _ hh ha (by rw [hu]; decide) (by rw [hu]; rfl) (hx _)
+  | false =>
+    simp only [Bool.false_eq_true, if_false] at hu ⊢
+    exact dispatch_callRet pf srv conn c _ (execPop .rpop) _ hh ha (by rw [hu]; decide) (by rw [hu]; rfl) (hx _)
+
+example : ExpFlag.ofKw (upper b!"gT") = some .gt := by decide
+
+
+/-- a SCAN option as the client spells it -/
+inductive ScanItem where
+  | match_ (kw pat : Bytes)
+  | count (kw tok : Bytes) (n : Int)
+
+def ScanItem.ok : ScanItem → Prop
+  | .match_ kw _ => upper kw = b!"MATCH"
+  | .count kw tok n => upper kw = b!"COUNT" ∧ atoi tok = some n
+
+def ScanItem.msgs : ScanItem → List Msg
+  | .match_ kw pat => [B kw, B pat]
+  | .count kw tok _ => [B kw, B tok]
+
+def ScanItem.apply (st : Bytes × Int) : ScanItem → Bytes × Int
+  | .match_ _ pat => (globRegex pat, st.2)
+  | .count _ _ n => (st.1, n)
+
+theorem scanOpts_items (items : List ScanItem) (h : ∀ i ∈ items, i.ok) (p : Bytes) (c : Int) :
+    scanOpts p c (items.flatMap ScanItem.msgs) = .ok (items.foldl ScanItem.apply (p, c)) := by
+  induction items generalizing p c with
+  | nil => rfl
+  | cons i is ih =>
+    have hi := h i (by simp)
+    have hrest := fun j hj => h j (List.mem_cons_of_mem _ hj)
+    cases i with
+    | match_ kw pat =>
+      simp only [ScanItem.ok] at hi
+      simp only [List.flatMap_cons, ScanItem.msgs, List.cons_append, List.nil_append, List.foldl_cons, ScanItem.apply]
+      rw [← ih hrest]
+      simp [scanOpts, B, msgStr, hi]
+    | count kw tok n =>
+      simp only [ScanItem.ok] at hi
+      simp only [List.flatMap_cons, ScanItem.msgs, List.cons_append, List.nil_append, List.foldl_cons, ScanItem.apply]
+      rw [← ih hrest]
+      have hne : upper kw ≠ b!"MATCH" := by rw [hi.1]; decide
+      simp [scanOpts, B, msgStr, msgInt, hi.1, hi.2, hne]
+
+/-- **SCAN** `cursor [MATCH pattern] [COUNT n]` with the options in any order, any number of times (the last one of
+a kind wins) and any letter case: one `Scan` call with the cursor, the pattern compiled as a glob, and the count -/
+theorem C05_scan (pf : FloatOracle) (srv : SrvSt) (conn : ConnSt) (c t : Bytes) (cur : Int) (items : List ScanItem)
+    (hh : srv.hasHandler = true) (ha : conn.authorized = true) (hu : upper c = b!"SCAN")
+    (ht : atoi t = some cur) (hi : ∀ i ∈ items, i.ok) :
+    executeCommand pf srv conn c (B t :: items.flatMap ScanItem.msgs) =
+      singleCall b!"SCAN" (.scan cur (items.foldl ScanItem.apply (defaultScanRegex, 10)).1
+        (items.foldl ScanItem.apply (defaultScanRegex, 10)).2) conn srv := by
+  have hx : execScan (B t :: items.flatMap ScanItem.msgs) =
+      callRet (.scan cur (items.foldl ScanItem.apply (defaultScanRegex, 10)).1 (items.foldl ScanItem.apply (defaultScanRegex, 10)).2) := by
+    simp [execScan, withArgs, nextInteger_B _ t cur _ ht, scanOpts_items items hi]
+  have := dispatch_callRet pf srv conn c _ execScan _ hh ha (by rw [hu]; decide) (by rw [hu]; rfl) hx
+  rw [hu] at this; exact this
+
+example : (ScanItem.count b!"cOuNt" b!"25" 25).ok ∧ (ScanItem.match_ b!"match" b!"a.c*").ok := by
+  constructor
+  · exact ⟨by decide, by decide⟩
+  · show upper b!"match" = b!"MATCH"; decide
+
+
+/-- a sorted-set range option as the client spells it -/
+inductive RangeItem where
+  | flag (kw : Bytes)                       -- BYSCORE | BYLEX | REV | WITHSCORES
+  | limit (kw off cnt : Bytes) (i j : Int)
+
+def RangeItem.ok : RangeItem → Prop
+  | .flag kw => upper kw = b!"BYSCORE" ∨ upper kw = b!"BYLEX" ∨ upper kw = b!"REV" ∨ upper kw = b!"WITHSCORES"
+  | .limit kw off cnt i j => upper kw = b!"LIMIT" ∧ atoi off = some i ∧ atoi cnt = some j
+
+def RangeItem.msgs : RangeItem → List Msg
+  | .flag kw => [B kw]
+  | .limit kw off cnt _ _ => [B kw, B off, B cnt]
+
+def RangeItem.apply (o : ZRangeOpt) : RangeItem → ZRangeOpt
+  | .flag kw =>
+    let u := upper kw
+    if u = b!"BYSCORE" then { o with byscore := true } else if u = b!"BYLEX" then { o with bylex := true }
+    else if u = b!"REV" then { o with rev := true } else { o with withscores := true }
+  | .limit _ _ _ i j => { o with offset := i, count := j }
+
+/-- the option clauses of ZRANGE / ZRANGEBYSCORE / ZREVRANGE / ZREVRANGEBYSCORE: any order, any letter case, any
+number of them (a later LIMIT replaces an earlier one) decode to exactly these options -/
+theorem C05_range_options (items : List RangeItem) (h : ∀ i ∈ items, i.ok) (o : ZRangeOpt) :
+    rangeOpts o (items.flatMap RangeItem.msgs) = .ok (items.foldl RangeItem.apply o) := by
+  induction items generalizing o with
+  | nil => rfl
+  | cons i is ih =>
+    have hi := h i (by simp)
+    have hrest := fun j hj => h j (List.mem_cons_of_mem _ hj)
+    cases i with
+    | flag kw =>
+      simp only [RangeItem.ok] at hi
+      simp only [List.flatMap_cons, RangeItem.msgs, List.cons_append, List.nil_append, List.foldl_cons]
+      rw [← ih hrest]
+      have hne1 : b!"BYLEX" ≠ b!"BYSCORE" := by decide
+      have hne2 : b!"REV" ≠ b!"BYSCORE" ∧ b!"REV" ≠ b!"BYLEX" := by decide
+      have hne3 : b!"WITHSCORES" ≠ b!"BYSCORE" ∧ b!"WITHSCORES" ≠ b!"BYLEX" ∧ b!"WITHSCORES" ≠ b!"REV" := by decide
+      rcases hi with h1 | h1 | h1 | h1
+      all_goals (
+        conv => lhs; unfold rangeOpts
+        simp only [B, msgStr, RangeItem.apply, h1]
+        simp [hne1, hne2, hne3])
+    | limit kw off cnt i j =>
+      simp only [RangeItem.ok] at hi
+      simp only [List.flatMap_cons, RangeItem.msgs, List.cons_append, List.nil_append, List.foldl_cons, RangeItem.apply]
+      rw [← ih hrest]
+      obtain ⟨h1, h2, h3⟩ := hi
+      conv => lhs; unfold rangeOpts
+      simp [B, msgStr, msgInt, h1, h2, h3]
+
+example : (RangeItem.limit b!"Limit" b!"5" b!"-1" 5 (-1)).ok := ⟨by decide, by decide, by decide⟩
+
+
+/-- **ZRANGEBYSCORE** `key min max [options]`: bounds decoded by the float oracle with their open/closed marker,
+options as in `C05_range_options` – one `ZRangeByScore` call with exactly these values -/
+theorem C05_zrangebyscore (pf : FloatOracle) (srv : SrvSt) (conn : ConnSt) (c k a b : Bytes) (items : List RangeItem)
+    (mn mx : UInt64) (mnx mxx : Bool)
+    (hh : srv.hasHandler = true) (ha : conn.authorized = true) (hu : upper c = b!"ZRANGEBYSCORE")
+    (h1 : rangeScore pf a = .ok (mn, mnx)) (h2 : rangeScore pf b = .ok (mx, mxx)) (hi : ∀ i ∈ items, i.ok) :
+    executeCommand pf srv conn c (B k :: B a :: B b :: items.flatMap RangeItem.msgs) =
+      singleCall b!"ZRANGEBYSCORE" (.zrangebyscore k mn mx { items.foldl RangeItem.apply {} with minex := mnx, maxex := mxx }) conn srv := by
+  have hx : execZRangeByScore pf false (B k :: B a :: B b :: items.flatMap RangeItem.msgs) =
+      callRet (.zrangebyscore k mn mx { items.foldl RangeItem.apply {} with minex := mnx, maxex := mxx }) := by
+    have hrs : ∀ (tok : Bytes) (rest : List Msg) (v : UInt64 × Bool), rangeScore pf tok = .ok v →
+        nextRangeScore pf (B tok :: rest) = .ok (v, rest) := by
+      intro tok rest v h
+      simp [nextRangeScore, nextStringRaw, B, msgStr, h]
+    simp only [execZRangeByScore, withArgs, nextString_B, hrs a _ _ h1, hrs b _ _ h2, C05_range_options items hi]
+    simp [callRet]
+  have := dispatch_callRet pf srv conn c _ (execZRangeByScore pf false) _ hh ha (by rw [hu]; decide) (by rw [hu]; rfl) hx
+  rw [hu] at this; exact this
+
 /-! ## Non-vacuity -/
 
 example : (⟨.exp .px 1500, b!"pX", b!"1500"⟩ : Spelled).ok := by
